@@ -6,8 +6,8 @@ def run(ctx):
     return staticprop.run_static_property(
         ctx, "emitc", "ownership discipline broken",
         "EmitC state machine over the statements of the emitted text: raw-use and DUP counters per declared pure/effect variable and borrowed parameter",
-        select=lambda v: v.startswith("own:"),
-        gen=(("Gen_C02.tla", 8), ("Gen_C05.tla", 2), ("Gen_C10.tla", 2), ("Gen_C07.tla", 1)),
+        select=lambda v: v.startswith("own"),
+        gen=(("Gen_C02.tla", 8), ("Gen_C05.tla", 2), ("Gen_C10.tla", 2), ("Gen_C07.tla", 1), ("Gen_C06.tla", 1)),
         # a read-write operand (access letters y, z) that is only written does not occur in the ISA (that is a 'd' or 'e' operand);
         # the compiler declares its read unconditionally, so the write-only catalogue programs on y/z are outside the domain
         keep=lambda p: not (p["id"].startswith("isa-wr-") and p["id"].rstrip("yz") != p["id"]))
